@@ -130,6 +130,17 @@ static void cells_pairwise(int wl, int lat)
 	{ cell c = { 0, 0, 0, 0, 255, 1, 1, lat, 0, wl, 0 }; add_cell(c); }      /* raw UDP mode */
 }
 
+/* two real clients behind one server (ea2.c): client-to-client forwarding, two sessions' held queries */
+static void cells_two(void)
+{
+	static const int QTS[] = { 0, 2, 4, 5, 1 };
+	for (unsigned q = 0; q < sizeof QTS / sizeof QTS[0]; q++) for (int lazy = 1; lazy >= 0; lazy--) for (int f = 0; f < 2; f++) {
+		cell c = { QTS[q], 0, 0, f ? 200 : 0, 255, lazy, 0, 0, 0, 2, 1 };
+		if ((c.qt == 5) && c.fs > 50) c.fs = 50;
+		add_cell(c);
+	}
+}
+
 /* ---------------------------------------------------------------- C11: relay family */
 static int add_relay(int qx, int ax, unsigned types, int limit, int edns)
 {
@@ -690,6 +701,13 @@ int main(int argc, char **argv)
 	struct { int first, count, budget; } PH[8]; int nph = 0;
 	#define PHASE(b) do { PH[nph].count = ncells - PH[nph].first; PH[nph].budget = (b); nph++; PH[nph].first = ncells; } while (0)
 	PH[0].first = 0;
+#ifdef EA_TWO
+	if (1) {
+		cells_two(); PHASE(0);
+		cells_two(); PHASE(1);
+		if (thorough) { cells_two(); PHASE(2); }
+	} else
+#endif
 	if (!strcmp(PROP, "C16")) {
 		exclude_oversized_fragsize = 1;
 		HORIZON_S = 8;
